@@ -50,7 +50,7 @@ func ruleR11_2(w *World, r *Report) {
 		r.Lost("snapshot.Manager.GetLatestDatatype")
 		return
 	}
-	ab := rewriter(`\$0\.managers\.Mongo\.MongoCollections\.GetLatestSnapshot\([^#]*\)#0\.Sseq`, "SNAP.Sseq", `\$0\.managers\.Mongo\.MongoCollections\.GetOperations\(.*\)#1\[\(len\(.*#1\)-1\)\]`, "LASTOP.Sseq", `phi\(SNAP\.Sseq\|0\)`, "SNAPORZERO")
+	ab := rewriter(`\$0\.managers\.Mongo\.MongoCollections\.GetLatestSnapshot\([^#]*\)#0\.Sseq`, "SNAP.Sseq", `\$0\.managers\.Mongo\.MongoCollections\.GetOperations\(.*\)#1\[\{\+len\(.*#1\)-1\}\]`, "LASTOP.Sseq", `phi\(SNAP\.Sseq\|0\)`, "SNAPORZERO")
 	var recv *ssa.Call
 	for _, c := range callsNamed(fn, "ReceiveRemoteModelOperations") {
 		recv, _ = c.(*ssa.Call)
@@ -61,26 +61,41 @@ func ruleR11_2(w *World, r *Report) {
 	}
 	okReplay := strings.Contains(canonName(recv.Call.Args[0]), "GetOperations(") && strings.HasSuffix(canonName(recv.Call.Args[0]), "#0")
 	r.Check(okReplay, "GetLatestDatatype/replay", u.Pos(recv.Pos()), "replays the fetched operations", "the replayed list is not the list fetched by GetOperations")
+	sawLast := false
 	forEachInstr(fn, func(in ssa.Instruction) {
 		ret, ok := in.(*ssa.Return)
 		if !ok || len(ret.Results) != 3 {
 			return
 		}
-		if c, isC := ret.Results[2].(*ssa.Const); !isC || c.Value != nil {
+		isErr := true
+		for _, e := range resolvePhis(ret.Results[2]) {
+			if c, isC := e.(*ssa.Const); isC && c.Value == nil {
+				isErr = false
+			}
+		}
+		if isErr {
 			return // error returns
 		}
-		ver := ab(ab(canonLinear(ret.Results[1]).String()))
-		afterReplay := instrDominates(recv, ret)
-		cons := "GetLatestDatatype/returned version"
-		switch {
-		case afterReplay:
-			r.Check(ver == "+LASTOP.Sseq", cons+" after replay", u.Pos(ret.Pos()), ver, "after replaying operations the rebuild reports version "+ver+", expected the server sequence of the last replayed operation")
-		case ver == "+0":
-			r.OK(cons+" of a new datatype", u.Pos(ret.Pos()), "0")
-		default:
-			r.Check(ver == "+SNAPORZERO", cons+" without later operations", u.Pos(ret.Pos()), ver, "without later operations the rebuild reports version "+ver+", expected the snapshot's version")
+		for _, v := range resolvePhis(ret.Results[1]) {
+			ver := ab(ab(canonLinear(v).String()))
+			cons := "GetLatestDatatype/returned version"
+			switch ver {
+			case "+0":
+				// a new datatype, or an error return merged into the same return statement
+			case "+LASTOP.Sseq":
+				sawLast = true
+				def, _ := v.(ssa.Instruction)
+				r.Check(def != nil && instrDominates(recv, def), cons+" after replay", u.Pos(ret.Pos()), ver, "the version of the last replayed operation is computed before the replay")
+			case "+SNAPORZERO", "+SNAP.Sseq":
+				r.OK(cons+" without later operations", u.Pos(ret.Pos()), ver)
+			default:
+				r.Bad(cons, u.Pos(ret.Pos()), "the rebuild reports version "+ver+"; expected the server sequence of the last replayed operation, or the snapshot's version when no operation follows it")
+			}
 		}
 	})
+	if !sawLast {
+		r.Bad("GetLatestDatatype/returned version after replay", u.Pos(fn.Pos()), "after replaying operations the rebuild does not report the server sequence of the last replayed operation")
+	}
 	key, val, pos, ok := sortSpec(u, pMongo, "MongoCollections", "GetLatestSnapshot")
 	if !ok {
 		r.Bad("GetLatestSnapshot/sort", "", "the latest-snapshot query has no sort specification")
